@@ -21,7 +21,6 @@ from gym_gridverse.representations.observation_representations import make_obser
 from gym_gridverse.representations.state_representations import make_state_representation
 from gym_gridverse.spaces import ActionSpace
 
-ORIG_MAKE_RNG = gridworld_mod.make_rng
 _BASE = {}
 
 
@@ -61,11 +60,7 @@ def make_parts(data, seed, reduced_actions=True):
     aspace = ActionSpace(list(ACTIONS6)) if reduced_actions else base.action_space
     env = GridWorld(base.state_space, aspace, base.observation_space, comps['reset'], comps['trans'], comps['obs'], comps['rew'], comps['term'])
     rec = rngtools.RecordingRNG(seed)
-    gridworld_mod.make_rng = lambda s=None: rec
-    try:
-        env.set_seed(seed)
-    finally:
-        gridworld_mod.make_rng = ORIG_MAKE_RNG
+    rngtools.install_rng(env, rec, seed)
     return env, comps, rec
 
 
